@@ -109,6 +109,27 @@ Section Cells.
         apply andb_true_iff in Hp as [Hp _]. apply Nat.ltb_lt in Hp. rewrite Hext in Hy by done. done.
   Qed.
 
+  (* a SyncFuture owner asleep in a terminal state waits for queue_ready (its slot job has not sent it) *)
+  Lemma ypark_waits c y st u rest : stacks s !! c = Some (FY YPpark y st u :: rest) ->
+    exists b, st = YQueue b /\ (getev s y.(y_r)).(fired) = false.
+  Proof.
+    intros Hc. destruct (stacks_actor s c _ Hc) as (ac & Ea & Est).
+    pose proof (Hterm c) as Hs. unfold step in Hs. rewrite Ea in Hs. cbn in Hs. rewrite Est in Hs. cbn in Hs.
+    destruct (token ac) eqn:Etok; [done|].
+    assert (Htk : tokb s c = false) by (unfold tokb; by rewrite (toks_lookup _ _ _ Ea), Etok).
+    pose proof (i2_ytw _ H2 c _ _ Hc ltac:(left)) as Hy. cbn [yob] in Hy.
+    pose proof (y_frames _ _ HY c _ _ Hc ltac:(left)) as Hfr. cbn [frok] in Hfr. destruct Hfr as (_ & _ & _ & _ & _ & _ & _ & Hpl).
+    assert (Hq : forall e, twr s c e = true -> (getev s e).(fired) = false).
+    { intros e. unfold twr. rewrite Htk, (term_quiet T s HI Hterm Hnp (is_unpark c)), (term_quiet T s HI Hterm Hnp (is_wake (WTask c))) by (intros []; try done; by left).
+      cbn. unfold unfreg. intros [H _]%andb_true_iff. by apply negb_true_iff in H. }
+    destruct st as [b|rs]; cbn [yguar] in Hy; [exists b; split; [done|by apply Hq]|exfalso].
+    destruct rs as [|p b]; [done|]. cbn in Hpl. apply andb_true_iff in Hpl as [Hp _]. destruct p; try done; cbn in Hp.
+    - apply Hq in Hy. apply Nat.ltb_lt in Hp. rewrite Hext in Hy by done. done.
+    - unfold twr2 in Hy. rewrite Htk, (term_quiet T s HI Hterm Hnp (is_unpark c)), (term_quiet T s HI Hterm Hnp (is_wake (WTask c))) in Hy by (intros []; try done; by left).
+      cbn in Hy. apply andb_true_iff in Hy as [Hy _]. unfold unfreg in Hy. apply andb_true_iff in Hy as [Hy _]. apply negb_true_iff in Hy.
+      apply andb_true_iff in Hp as [Hp _]. apply Nat.ltb_lt in Hp. rewrite Hext in Hy by done. done.
+  Qed.
+
   (* what a suspended job waits for has happened *)
   Lemma susp_fired j e : jobok nev s j -> susp j = Some e -> (getev s e).(fired) = true.
   Proof.
